@@ -71,7 +71,7 @@ def run(ctx):
             if kind == "ars":
                 r["len"] = len(o)
             C = T.TextMessagingService if kind == "tms" else A.AutomaticRegistrationService
-            p = C.from_bytes(b)
+            p = C.from_bytes(gen.as_caller_bytes(b, len(samples)))
             r["parsed"] = tms_fields(p) if kind == "tms" else ars_fields(p)
             r["bytes2"] = list(p.as_bytes())
             if len(samples) % 2:          # every other message is handled by a caller that edits its objects after use
